@@ -64,6 +64,8 @@ func (c *CEnv) lookup(name string) *CV {
 		return cvBig(b)
 	case "T62":
 		return cvInt(4611686018427387904)
+	case "T61":
+		return cvInt(2305843009213693952)
 	case "TimeZero":
 		b, _ := new(big.Int).SetString("-62135596800000000000", 10)
 		return cvBig(b)
